@@ -105,6 +105,7 @@ def menu(f):
         d.update(kw)
         ops.append(d)
     add('copy')
+    add('copy_nodata')
     sdims = [d for d in ('TSTEP', 'LAY', 'ROW', 'COL', 'PERIM') if d in dims]
     for d in sdims:
         n = dims[d]
@@ -154,6 +155,8 @@ def do_op(f, op):
     n = op['op']
     if n == 'copy':
         return f.copy()
+    if n == 'copy_nodata':
+        return f.copy(data=False)
     if n == 'slice':
         return f.sliceDimensions(**OrderedDict((d, rops.sel_to_py(tuple(s))) for d, s in op['sel']))
     if n == 'subset':
